@@ -197,7 +197,7 @@ func (s *BaseState) DecodeJSON(b []byte, enc encoder.Encoder) error {
 
 	s.ops = nil
 
-	if len(u.Operations) > 0 {
+	if u.Operations != nil { // NOTE null and [] are decoded to what they were encoded from
 		s.ops = make([]util.Hash, len(u.Operations))
 
 		for i := range u.Operations {
